@@ -48,7 +48,13 @@ type script struct {
 	post []step // after it read the file, before it returns
 }
 
-func body(label string) []byte { return []byte("config: " + label + "\n") }
+// body is the file content for a content label; the label "empty" is the zero-byte file
+func body(label string) []byte {
+	if label == "empty" {
+		return []byte{}
+	}
+	return []byte("config: " + label + "\n")
+}
 
 // fpString renders a fingerprint the way fmt prints reload.contentFingerprint{state, sum}.
 func fpString(state int, content []byte) string {
